@@ -101,7 +101,7 @@ def _call(s, name, H, V, keep):
         keep.append((pts, [list(r) for r in pts]))
         return s.is_inside(pts)
     if name == "distance_to_surface":
-        ang = H.arr([H.pi / 2, H.pi * 0, H.pi]) if H.symbolic else H.arr([H.pi / 2, 0.0, H.pi])
+        ang = H.arr([H.pi / 4, H.pi * 0, H.pi, -3 * H.pi / 4]) if H.symbolic else H.arr([H.pi / 4, 0.0, H.pi, -3 * H.pi / 4])  # not pi/2: tan is exact there
         keep.append((ang, list(ang)))
         return s.distance_to_surface(ang)
     if name == "compute_form_factor_amplitude":
